@@ -50,6 +50,7 @@ struct Shared {
 }
 
 lazy_static::lazy_static! {
+    static ref COMMAND_THREAD: Mutex<Option<std::thread::ThreadId>> = Mutex::new(None);
     static ref SHARED: (Mutex<Shared>, Condvar) = (
         Mutex::new(Shared { log: Vec::new(), seq: 0, points: HashMap::new(), gate_permits: 0, registry: None }),
         Condvar::new(),
@@ -88,6 +89,10 @@ pub fn drain_log() -> Vec<Ev> {
 /// case it announces that it was reached and waits for a release permit.
 pub fn sync_point(name: &str) {
     if !ANY_ARMED.load(Ordering::Relaxed) {
+        return;
+    }
+    // Only background threads are parked: the command thread must keep serving the driver
+    if *COMMAND_THREAD.lock().unwrap() == Some(std::thread::current().id()) {
         return;
     }
     let (m, cv) = &*SHARED;
@@ -163,6 +168,9 @@ pub fn release(name: &str) {
 /// Top of the server's event loop: counts iterations and, when the gate is on,
 /// waits for one permit per iteration.
 pub fn loop_top() {
+    if LOOP_ITER.load(Ordering::Relaxed) == 0 {
+        *COMMAND_THREAD.lock().unwrap() = Some(std::thread::current().id());
+    }
     if GATE_ON.load(Ordering::Relaxed) {
         let (m, cv) = &*SHARED;
         let mut s = m.lock().unwrap();
